@@ -177,6 +177,12 @@ func originsInto(v ssa.Value, set map[string]bool, seen map[ssa.Value]bool, dept
 			originsInto(ta.X, set, seen, depth+1)
 			return
 		}
+		if u, ok := x.Tuple.(*ssa.UnOp); ok && u.Op == token.ARROW && x.Index == 0 {
+			for _, o := range origins(u.X) {
+				set["recv:"+o] = true
+			}
+			return
+		}
 		set["tuple:"+x.Tuple.Name()] = true
 	case *ssa.TypeAssert:
 		originsInto(x.X, set, seen, depth+1)
